@@ -132,7 +132,8 @@ def generate(run_seed, tier):
     mcfg['flatmie'] = {'mix': 10 ** c.uniform(-30, -24),
                        'bottomP': c.choice([-1, 1e5]), 'topP': 10.0}
     mcfg['leemie'] = {'radius': c.uniform(0.005, 0.05), 'q': c.uniform(10, 60),
-                      'mix': 10 ** c.uniform(-14, -10),
+                      'mix': c.choice([0.0, 10 ** c.uniform(-14, -10),
+                                       10 ** c.uniform(-14, -10)]),
                       'bottomP': c.choice([-1, 1e5]),
                       'topP': c.choice([-1, 1e1])}
     mcfg['tp'] = {'kind': 'isothermal', 'T': c.uniform(700, 2200)}
@@ -164,8 +165,18 @@ def generate(run_seed, tier):
             ops.append(['set_interp', o.choice(['linear', 'exp'])])
         elif r < 0.84:
             ops.append(['set', o.choice(mols), 10 ** o.uniform(-9, -3.5)])
-        elif r < 0.88:
+        elif r < 0.865:
             ops.append(['set', 'planet_radius', o.uniform(0.5, 1.6)])
+        elif r < 0.88:
+            # a haze switched off (exactly zero) or back on
+            hz = [h for h in ('flat_mix_ratio', 'lee_mie_mix_ratio')
+                  if {'flat_mix_ratio': 'FlatMie',
+                      'lee_mie_mix_ratio': 'LeeMie'}[h] in contribs]
+            if hz:
+                ops.append(['set', o.choice(hz),
+                            o.choice([0.0, 0.0, 10 ** o.uniform(-14, -9)])])
+                if o.random() < 0.5:
+                    ops.append(['model_full_contrib'])
         elif r < 0.92:
             ops.append(['zero', o.choice(mols)])
         elif r < 0.96:
